@@ -75,6 +75,62 @@ def mutate(rng, s):
     return s[:80]
 
 
+# ---- value grammar: every kind of value token of the stylesheet abbreviation syntax (emmet docs, "CSS abbreviations":
+# numbers with units, `#` colours with alpha, keywords, quoted strings, function calls with arguments, `${n}` /
+# `${n:placeholder}` fields, `$var` / `@var` variables, `!`), written next to every other kind.  The samples are
+# hard-coded here; nothing is read from the library.
+VALUE_KINDS = {
+    'number': ['10', '0', '1.5', '.5', '10p', '2px', '1e', '7%', '-3'],
+    'color': ['#f', '#fc0', '#f.5', '#0', '#e7bc0b', '#t', '#'],
+    'keyword': ['a', 'auto', 's', 'n', 'foo', 'x-y'],
+    'string': ['"a b"', "'x'", '""', '"${1}"'],
+    'function': ['f()', 'rotate(10)', 'url(a.png)', 'lg(red, #0.5)', 'r(${1})', 'a(b(1),"c")', 'calc(1+2)', 'v(--x)', 'F(,)'],
+    'field': ['${1}', '${0}', '${0:x}', '${2:a b}', '${12:}', '${1:f()}', '${x}', '${:y}'],
+    'variable': ['$foo', '@bar', '$a-b', '@x1', '$'],
+    'important': ['!'],
+}
+VALUE_KIND_NAMES = sorted(VALUE_KINDS)
+VALUE_DELIMS = ['', '-', ' ', ',', '--', ', ']
+VALUE_HEADS = ['', 'p', 'p:', 'trf:', 'bg:', 'bgi-', 'foo:', 'm', 'm-', 'zzq', '@k-', 'bd', 'c', '--v:', 'lg']
+VALUE_CFGS = [
+    Cfg(), Cfg(tabstop=True), Cfg(syntax='scss'), Cfg(syntax='sass', options={'stylesheet.shortHex': False}),
+    Cfg(syntax='stylus', options={'stylesheet.json': True}), Cfg(options={'stylesheet.skipUnmatched': False}, tabstop=True),
+    Cfg(context='transform'), Cfg(context='transform', tabstop=True), Cfg(context='@@value'), Cfg(context='@@value', tabstop=True),
+    Cfg(context='@@property'), Cfg(context='@@section', tabstop=True), Cfg(syntax='less', context='border'),
+    Cfg(options={'output.format': False, 'stylesheet.between': '', 'stylesheet.after': ''}, tabstop=True),
+]
+
+
+def value_grammar_cases(rng, quick):
+    """Grammar-built values: (1) every ordered pair of token kinds x every delimiter, each under two heads and two
+    configurations (samples of the kinds drawn at random); (2) every single sample after every head; (3) random
+    sequences of 3..6 tokens with random delimiters, optionally several properties joined by `+`."""
+    out = []
+
+    def tok(kind):
+        return rng.choice(VALUE_KINDS[kind])
+
+    for k1 in VALUE_KIND_NAMES:
+        for k2 in VALUE_KIND_NAMES:
+            for d in VALUE_DELIMS:
+                for _ in range(2 if quick else 6):
+                    out.append((rng.choice(VALUE_CFGS), rng.choice(VALUE_HEADS) + tok(k1) + d + tok(k2)))
+    for k in VALUE_KIND_NAMES:
+        for smp in VALUE_KINDS[k]:
+            for h in VALUE_HEADS:
+                out.append((rng.choice(VALUE_CFGS), h + smp))
+
+    def value():
+        s = rng.choice(VALUE_HEADS)
+        for i in range(rng.randint(3, 6)):
+            s += (rng.choice(VALUE_DELIMS) if i else '') + tok(rng.choice(VALUE_KIND_NAMES))
+        return s
+
+    for _ in range(900 if quick else 6000):
+        out.append((rng.choice(VALUE_CFGS), '+'.join(value() for _ in range(1 if rng.random() < 0.7 else rng.randint(2, 3)))[:90]))
+    return out
+
+
 def random_cfg(rng):
     return Cfg(syntax=rng.choice(su.SYNTAXES), options=rng.choice(OPTION_SETS), snippets=rng.choice(USER_TABLES),
                context=rng.choice(CONTEXTS), tabstop=rng.random() < 0.5)
@@ -124,6 +180,10 @@ def gen(ctx):
                 s = '+'.join(mutate(rng, rng.choice(VALID)) if rng.random() < 0.3 else rng.choice(VALID)
                              for _ in range(rng.randint(1, 4)))
             full.append((c, s))
+    vg = value_grammar_cases(rng, quick)
+    for c, s in vg:
+        ctx.cover('css:value-grammar:%s' % ('context=' + c.context if c.context else 'property'))
+    full += vg
     return stage_cases, full, (n_ex, len(ex_alpha), n_full)
 
 
@@ -147,7 +207,10 @@ def run_css(ctx):
     rule = ('css: (a) every string up to length %d over a %d..26-character stylesheet alphabet through expand(type=stylesheet) '
             '[default and @@value scope], tied to the extracted tokenizer+parser model; (b) corpus + every string up to length %d '
             'under 7 configurations + mutations of %d valid abbreviations + random strings under random option sets / scopes / '
-            'user tables, tied to the full model evaluated inside Coq; observable = outcome class (ok | scanner pos | token pos | '
+            'user tables + value grammar (every ordered pair of the 8 value-token kinds number/colour/keyword/string/function call/'
+            'field/variable/`!` x 6 delimiters after 15 heads, every sample alone, random 3..6-token values and `+` chains, '
+            'under 14 configurations incl. value/property/section contexts and both field styles), tied to the full model '
+            'evaluated inside Coq; observable = outcome class (ok | scanner pos | token pos | '
             'internal type); non-trivial = raises a parse error or expands to non-empty text from >=2 characters; distinct by '
             '(configuration, input)') % (n_ex, n_alpha, n_full, len(VALID))
     ctx.cov['rule'] = (ctx.cov.get('rule') + ' || ' if ctx.cov.get('rule') else '') + rule
